@@ -14,13 +14,14 @@ type externalInfo struct {
 	mayPanic bool   // default: does not panic
 	nilPanics []int // indexes of arguments whose being nil makes the call panic
 	mutates  []int  // indexes of slice arguments whose elements may be rewritten
+	rangePanic bool // (s, i, j): panics exactly when !(0 <= i <= j <= len(s))
 	note     string // documented behaviour relied upon
 }
 
 var externals = map[string]externalInfo{
 	"sort.SliceStable":               {mutates: []int{0}, note: "sort.SliceStable permutes its slice argument stably by less"},
 	"golang.org/x/exp/slices.Sort":   {mutates: []int{0}, note: "slices.Sort sorts in place"},
-	"golang.org/x/exp/slices.Delete": {mayPanic: true, note: "slices.Delete panics if the range is out of bounds"},
+	"golang.org/x/exp/slices.Delete": {rangePanic: true, note: "slices.Delete(s, i, j) panics exactly when s[i:j] is not a valid slice of s"},
 	"io/fs.Glob":                     {nilPanics: []int{0}, note: "fs.Glob calls a method of its FS argument: a nil FS is a nil-interface method call (panics)"},
 	"io/fs.ReadFile":                 {nilPanics: []int{0}, note: "fs.ReadFile calls a method of its FS argument: a nil FS panics"},
 	"io/fs.ReadDir":                  {nilPanics: []int{0}, note: "fs.ReadDir calls a method of its FS argument: a nil FS panics"},
@@ -85,6 +86,12 @@ func (g *Gen) callExternal(e *Ev, fn *types.Func, recv *Term, args []Term, n *as
 		pn := "extpanic$" + sanitize(key)
 		g.Pre.add(fmt.Sprintf("(declare-fun %s (%s) Bool)", pn, strings.Join(sorts, " ")))
 		e.panicIf(app(pn, as...), "external "+key+" may panic", n)
+	}
+	if info.rangePanic && !e.spec && !e.quiet && len(args) == 3 && args[0].Sort == sSlice {
+		i := e.coerce(args[1], sInt, true, nil).S
+		j := e.coerce(args[2], sInt, true, nil).S
+		ok := smtAnd(app("<=", "0", i), app("<=", i, j), app("<=", j, app("slen", args[0].S)))
+		e.panicIf(smtNot(ok), "external "+key+" range out of bounds", n)
 	}
 	for _, i := range info.mutates {
 		if i < len(args) && args[i].Sort == sSlice {
